@@ -7,7 +7,7 @@ HOOKS = {
 }
 ENGINES = [
     {'name': 'cxx-history', 'path': 'cxx/common/mc.h + cxx/common/isolate.h + lib/runner.py',
-     'serves_properties': ['C08', 'C09', 'C10'],
+     'serves_properties': ['C08', 'C09', 'C10', 'C13'],
      'kind_free_text': 'explicit-state / small-scope exploration of operation histories on freshly constructed real objects (bounds-checking brokers, step counters, forked isolation under ASan/UBSan)'},
     {'name': 'cxx-sweep', 'path': 'cxx/common/verif.h + lib/runner.py',
      'serves_properties': ['C01', 'C02', 'C06', 'C07'],
@@ -38,4 +38,7 @@ CHECKS = {
     'C09': dict(engine='cxx-history', category='model_checking', technique='explicit-state history exploration + exhaustive boundary-domain sweeps on the real code under ASan/UBSan',
                 text='The C08 worlds are re-explored with hostile argument classes under AddressSanitizer (abort) and UndefinedBehaviorSanitizer (every distinct site reported), checking that out-of-range queries give the documented error value on a fresh object and every time they are repeated in any explored history; plus sweeps of every public factory/accessor over int32 epoch values, boundary component tuples, all int16 offsets/years, parser inputs of every length on exact-size heap strings, and the transition-buffer high-water mark / basic cache slots for every shipped zone and year 1999..2050.',
                 note='host LP64 only; int32 epoch sweep is strided (65521 quick / 251 thorough) plus dense windows at 12 boundaries; 15 known findings (signed overflow at the int32 extremes, unvalidated table index in dayOfWeek/daysInMonth) are listed in known_findings.json.'),
+    'C13': dict(engine='cxx-history', category='model_checking', technique='exhaustive enumeration of the clock automaton\'s one-step transition relation + explicit-state BFS of set/poll histories against a reference model',
+                text='The SystemClock state that matters is mPrevMillis mod 2^16 (the epoch is additive). The complete transition relation - every mPrevMillis value x every distance 0..65535 to the next poll - is executed on the real class with the invariant (reading = T + floor(D/1000), mPrevMillis advanced by whole seconds) checked on each, which by induction covers every polling schedule with gaps <= 64,536 ms; explicit multi-step schedules straddle 2^16 and 2^32 of the injected 64-bit counter; a BFS over histories of settings (equal, smaller, larger, sentinel) and polls is compared with a reference model.',
+                note='quick tier covers every 17th phase (+ boundary phases); 32-bit unsigned long targets are represented by injecting counter values around 2^32, the class itself only uses the low 16 bits.'),
 }
